@@ -304,6 +304,8 @@ type fcore struct {
 	rows     int
 	// OnSave is called (with the task still running) whenever an offset becomes durable for an id.
 	OnSave func(id string, off eventbus.Offset)
+	// OnLoad is called for every LoadOffset that reaches the decorator
+	OnLoad func(id string)
 	// OnAppend is called when an event became durable.
 	OnAppend func(off eventbus.Offset, ev *eventbus.Event)
 	// OnAppendResult reports what the caller of Append was told: ok, failed, lost-ack, blocked
@@ -493,6 +495,9 @@ func (f *fcore) LoadOffset(ctx context.Context, id string) (eventbus.Offset, err
 	f.opBefore()
 	if simrt.Dead() {
 		return eventbus.OffsetOldest, errDeadProcess
+	}
+	if f.OnLoad != nil {
+		f.OnLoad(id)
 	}
 	k := f.next("load")
 	if has(f.plan.FailLoad, k) {
